@@ -161,7 +161,7 @@ PROPS = {
     ),
     "C13": dict(
         level="other",
-        bounded=_mod("c13"),
+        bounded=_both(_mod("c13"), _mod("extra", "run_c13x")),
         lemmas=["mem.snoc.Str"],
         trusted=TB + ["TB-mp (multi_inference assumed sequentialised)"],
         assumed=["precondition: query texts of one batch are pairwise distinct (negated carve-out of the known finding)"],
@@ -189,7 +189,7 @@ PROPS = {
     ),
     "C16": dict(
         level="other",
-        bounded=_mod("c16"),
+        bounded=_both(_mod("c16"), _mod("extra", "run_c16x")),
         lemmas=["RangeList", "mem.snoc.Str", "mem.nil.Str"],
         trusted=TB,
         assumed=["symbolize_bitvec (string manipulation) denotes the world", LSTOP],
@@ -222,7 +222,7 @@ PROPS = {
     ),
     "C20": dict(
         level="other",
-        bounded=_mod("c20"),
+        bounded=_both(_mod("c20"), _mod("extra", "run_c20x")),
         trusted=["TB-io", "TB-py"],
         assumed=[],
         explanation="Engine P proves that save_ocf leaves the object's attribute dictionary unchanged on the normal exit and on every "
@@ -235,7 +235,7 @@ NOT_APPLICABLE = {}
 
 
 # Engine B modules that are finished and reviewed (a module file may exist while still in work)
-READY_MODULES = {"c06", "c10", "c13", "c14", "c15", "c16", "c17", "c18", "c19", "c20", "lexbias", "pure", "mcsz3"}
+READY_MODULES = {"c06", "c10", "c13", "c14", "c15", "c16", "c17", "c18", "c19", "c20", "lexbias", "pure", "mcsz3", "extra"}
 
 
 def available(pid):
